@@ -1,4 +1,4 @@
-import LanceModel.C39.ConcLemmas
+import LanceModel.C39.RoundLemmas
 /-!
 # C39 — the MemWAL index follows its state machine, also under concurrent writers
 
@@ -180,5 +180,70 @@ theorem state_backward_counterexample :
     ((World.init.runs (miActs ++ [.run 2 (.own 0 0 3 none)])).tab.live.filter (fun m => m.id = (0, 0))).map (·.state)
       = [.flushed] := by
   decide
+
+/-! ## Part 3: rounds of concurrent writers planned on a common read version, committed in any order -/
+
+/-- FULL statement: every op of the list is planned on the same snapshot of a good table (a common read version) and the
+    transactions are committed in list order through the conflict check and the rebase; the invariant holds afterwards -/
+def C39_round_full : Prop :=
+  ∀ (t : Tab) (ops : List Op), Inv t → TrimBelow t.live t.trimmed → LogOK t → Inv (round t t.snap ops).1
+
+/-- the invariant is preserved by every accepted commit of a round of any number of concurrent writers, in every commit
+    order (the list order is arbitrary) — provided no accepted commit runs into one of the three gaps of the conflict check
+    (`roundSafe`: touching a generation a trim-only commit of the round removed, or the generation a merge_insert of the
+    round merged) -/
+theorem round_invariant_partial (t : Tab) (ops : List Op) (hi : Inv t) (hb : TrimBelow t.live t.trimmed) (hl : LogOK t)
+    (hs : roundSafe t t.snap ops = true) : Inv (round t t.snap ops).1 := by
+  have h0 : RInv t.live t.trimmed t.snap.version t := by
+    refine ⟨?_, hi, Nat.le_refl _⟩
+    show J t.live t.trimmed t.live t.trimmed (since t t.version)
+    rw [since_self hl]
+    exact J_init _ _
+  exact (round_rinv (h := t.snap) rfl hi hb ops t h0 hs).core
+
+/-- histories made of rounds: all writers re-open the table between two rounds (a round of one op is a sequential step) -/
+def rounds (t : Tab) : List (List Op) → Tab
+  | [] => t
+  | r :: rest => rounds (round t t.snap r).1 rest
+
+def roundsSafe (t : Tab) : List (List Op) → Bool
+  | [] => true
+  | r :: rest => trimBelowB t && roundSafe t t.snap r && roundsSafe (round t t.snap r).1 rest
+
+/-- … after every history of rounds starting from the empty table -/
+theorem rounds_invariant_partial (rs : List (List Op)) :
+    ∀ t : Tab, Inv t → LogOK t → roundsSafe t rs = true → Inv (rounds t rs) := by
+  induction rs with
+  | nil => intro t hi _ _; exact hi
+  | cons r rest ih =>
+    intro t hi hl hs
+    simp only [roundsSafe, Bool.and_eq_true] at hs
+    exact ih _ (round_invariant_partial t r hi ((trimBelowB_iff t).mp hs.1.1) hl hs.1.2) (logOK_round _ r t hl) hs.2
+
+def mergedThenOpen : Tab :=
+  run Tab.init [.adv 0 1 1 none 0, .adv 0 2 2 (some 0) 1, .markFlushed 0 0 0, .markMerged 0 0 0]
+
+/-- the code does not meet the full statement: a trim and a stale owner change of the generation it removes, planned on
+    the same version and committed in this order -/
+theorem round_full_counterexample : ¬ C39_round_full := by
+  intro h
+  have hrun := seq_invariant_partial [.adv 0 1 1 none 0, .adv 0 2 2 (some 0) 1, .markFlushed 0 0 0, .markMerged 0 0 0]
+    Tab.init inv_init.1 inv_init.2 (by decide)
+  have hlog : LogOK mergedThenOpen := by
+    intro p hp
+    have : ∀ q ∈ mergedThenOpen.log, q.1 ≤ mergedThenOpen.version := by decide
+    exact this p hp
+  have := (h mergedThenOpen [.trim, .own 0 0 3 none] hrun.1 hrun.2 hlog).disj
+    { region := 0, gen := 0, mt := 1, wal := 1, entries := [], state := .merged, owner := 3, lu := 7 }
+  exact this (by decide) (by decide)
+
+/-- non-vacuity: a round of three writers (advance, flush of the sealed generation, merge_insert … ) satisfies the
+    hypothesis and two of them commit; the round `[trim, own]` above does not -/
+example : roundSafe mergedThenOpen mergedThenOpen.snap [.adv 0 3 3 (some 1) 2, .app 0 1 5 1, .own 0 0 3 none, .trim] = true ∧
+    (round mergedThenOpen mergedThenOpen.snap [.adv 0 3 3 (some 1) 2, .app 0 1 5 1, .own 0 0 3 none, .trim]).2
+      = [true, false, true, true] := by decide
+example : roundSafe mergedThenOpen mergedThenOpen.snap [.trim, .own 0 0 3 none] = false := by decide
+example : roundsSafe Tab.init [[.adv 0 1 1 none 0], [.adv 0 2 2 (some 0) 1, .app 0 0 4 0], [.markFlushed 0 0 0, .app 0 1 9 1]]
+    = true := by decide
 
 end LanceModel.C39
